@@ -81,6 +81,47 @@ def run_real(bind: str):
     return (fam, s.bound)
 
 
+def run_create_sockets():
+    """Config.create_sockets with TLS configured: the sockets made for bind and insecure_bind are
+    stream sockets, those for quic_bind datagram sockets (C19 "sockets of the intended family,
+    address and type"); without TLS only bind is used, as stream sockets"""
+    repo = os.environ.get("PYVC_REPO", "/repo")
+    sys.path.insert(0, os.path.join(repo, "src"))
+    import hypercorn.config as C
+
+    made = []
+
+    def fake_socket(family=-1, type_=-1, proto=-1, fileno=None):
+        s = FakeSock(family, type_, fileno)
+        s.getsockname = lambda: ("127.0.0.1", 1)
+        made.append(s)
+        return s
+
+    fake = types.SimpleNamespace(**{k: getattr(socket, k) for k in dir(socket) if k.isupper()})
+    fake.socket = fake_socket
+    fake.SocketKind = socket.SocketKind
+    orig = C.socket
+    orig_stat = C.os.stat
+    C.socket = fake
+    C.os.stat = lambda p: (_ for _ in ()).throw(FileNotFoundError())
+    out = []
+    try:
+        for tls in (True, False):
+            del made[:]
+            cfg = C.Config()
+            cfg.bind, cfg.insecure_bind, cfg.quic_bind = ["127.0.0.1:8443"], ["127.0.0.1:8080"], ["127.0.0.1:4433"]
+            if tls:
+                cfg.certfile, cfg.keyfile = "cert.pem", "key.pem"
+            socks = cfg.create_sockets()
+            kinds = {"secure": [s.type for s in socks.secure_sockets], "insecure": [s.type for s in socks.insecure_sockets], "quic": [s.type for s in socks.quic_sockets]}
+            bound = {"secure": [s.bound for s in socks.secure_sockets], "insecure": [s.bound for s in socks.insecure_sockets], "quic": [s.bound for s in socks.quic_sockets]}
+            out.append((tls, kinds, bound))
+    finally:
+        C.socket = orig
+        C.os.stat = orig_stat
+    return out
+
+
 def binds(tier):
     hosts = ["127.0.0.1", "localhost", "0.0.0.0", "a", "example.com"]
     v6 = ["::1", "::", "fe80::1", "2001:db8::2"]
@@ -130,6 +171,18 @@ def run(tier="quick", seed=0):
             got = ("raised", type(e).__name__)
         if got != want:
             violations.append({"obligation": "C19.bind", "input": b, "expected": repr(want), "observed": repr(got)})
+    try:
+        for tls, kinds, bound in run_create_sockets():
+            S, D = socket.SOCK_STREAM, socket.SOCK_DGRAM
+            want_kinds = {"secure": [S], "insecure": [S], "quic": [D]} if tls else {"secure": [], "insecure": [S], "quic": []}
+            want_bound = ({"secure": [("127.0.0.1", 8443)], "insecure": [("127.0.0.1", 8080)], "quic": [("127.0.0.1", 4433)]} if tls
+                          else {"secure": [], "insecure": [("127.0.0.1", 8443)], "quic": []})
+            n += 1
+            if kinds != want_kinds or bound != want_bound:
+                violations.append({"obligation": "C19.bind", "input": "create_sockets() with bind / insecure_bind / quic_bind, TLS %s" % ("configured" if tls else "not configured"),
+                                   "expected": repr((want_kinds, want_bound)), "observed": repr((kinds, bound))})
+    except Exception as e:  # the real function raised
+        violations.append({"obligation": "C19.bind", "input": "create_sockets()", "expected": "sockets", "observed": "raised %r" % (e,)})
     return {"tool": "native enumeration over a bind grammar against a spec parser", "bound": "documented shapes over 5 hosts x 5 ports, 4 IPv6 literals, unix:/fd:// samples" + ("; plus all strings up to length 5 over {a,1,:,.,[,]} that the spec parser accepts" if tier == "thorough" else ""),
             "cases": n, "violations": violations}
 
